@@ -30,7 +30,7 @@ fn meta() -> Meta {
     Meta {
         id: "C12",
         level: "model_checking",
-        rule: "for every multiset of 2 (all) or 3 (selected) operations from {set_new_spec(A), parse_new_spec(B), push_temp_spec(C), push_temp_spec(C)+pop_temp_spec, set_new_spec(D)}, every interleaving of the threads' scheduling points (thread start, acquisition of the spec write lock, global max-level update, thread end) is executed under the controlled scheduler; states = choice points visited, transitions = scheduling decisions taken; a schedule is non-trivial when it contains at least one preemption; plus WatcherE (the specfile watcher's path through a guarded hook) as sixth operation and a Probe thread reading log::max_level() at any moment (the additional writer's max_log_level() is a scheduling point): the gate is never below that writer's ceiling; every pair also with the spec lock left un-modelled (real blocking on the RwLock, detected from the kernel thread state); a LogQ thread logs an error record for a module every specification switches off - it is never written; a LogP thread logs an error record for a module every specification admits - it is always written; plus an auxiliary free-running pass (sampling): 60000 / 1.5 M rounds of two simultaneous set_new_spec calls, the state judged after every round; the final specification must be one that some interleaving of the operations' atomic steps produces (set/parse/watcher: install; push_temp_spec: save the active one, then install; pop_temp_spec: install what this handle saved)",
+        rule: "for every multiset of 2 (all) or 3 (selected) operations from {set_new_spec(A), parse_new_spec(B), push_temp_spec(C), push_temp_spec(C)+pop_temp_spec, set_new_spec(D)}, every interleaving of the threads' scheduling points (thread start, acquisition of the spec write lock, global max-level update, thread end) is executed under the controlled scheduler; states = choice points visited, transitions = scheduling decisions taken; a schedule is non-trivial when it contains at least one preemption; plus WatcherE (the specfile watcher's path through a guarded hook) as sixth operation and a Probe thread reading log::max_level() at any moment (the additional writer's max_log_level() is a scheduling point): the gate is never below that writer's ceiling; every pair also with the spec lock left un-modelled (real blocking on the RwLock, detected from the kernel thread state); a LogQ thread logs an error record for a module every specification switches off - it is never written; a LogP thread logs an error record for a module every specification admits - it is always written; plus an auxiliary free-running pass (sampling): 60000 / 1.5 M rounds of two simultaneous set_new_spec calls, the state judged after every round; the final specification must be one that some interleaving of the operations' atomic steps produces (set/parse/watcher: install; push_temp_spec: save the active one, then install; pop_temp_spec: install what this handle saved); plus harnesses whose threads share one never-cloned handle by reference",
         assumptions: vec![
             "sequentially consistent interleaving at hook granularity (spec RwLock section and log::set_max_level are the only shared accesses of these operations)".into(),
             "the specfile watcher calls the same WritersHandle::set_new_spec and is covered as another thread".into(),
